@@ -47,7 +47,7 @@ Theorem c17_gray_export_ok : forall i,
 Proof. exact gray_export_ok_holds. Qed.
 Print Assumptions c17_gray_export_ok.
 
-(* all 65536 RGB565 colours (sweep): RGB16BitToGray returns a byte whose high nibble is the luma *)
+(* every RGB565 colour (arithmetic proof: no uint16/uint32 wrap fires): RGB16BitToGray returns a byte whose high nibble is the luma *)
 Theorem c17_gray_luma : forall c, colour16_ok c -> rgb16_to_gray c / 16 = luma_nibble c /\ 0 <= rgb16_to_gray c < 256.
 Proof. exact gray_luma. Qed.
 Print Assumptions c17_gray_luma.
